@@ -17,6 +17,7 @@ func init() {
 			{Name: "H_C04_float", Tier: "quick", What: "float field: 2 documents with symbolic float64 values, 7 operators, symbolic operands, two-decimal fixed point", Covers: []string{"ran"}},
 			{Name: "H_C04_cat", Tier: "quick", What: "string / bool fields over the menu {\"\", a, b, a:b} or absent, 3 documents: eq ne in not_in exists not_exists and Not(.), operands absent from the data, a field absent from the index", Covers: []string{"ran"}},
 			{Name: "H_C04_groups", Tier: "quick", What: "filter trees over 6 filters (string, bool, symbolic integer operand): AND lists, two groups (<=2 x 2) OR-ed, the query builder", Covers: []string{"ran"}},
+			{Name: "H_C04_orgroup", Tier: "quick", What: "a filter group with OR inside (2..3 terms from a menu incl. one that matches nothing, in any order), optionally OR-ed with a second AND group; symbolic int64 values and operand: exact id set, index state unchanged", Covers: []string{"ran"}},
 			{Name: "H_C04_history", Tier: "quick", What: "histories: <=2 of Remove(known/unknown) / re-Add, then 6 filter shapes incl. the empty list: removed documents never returned", Covers: []string{"ran"}},
 		},
 		ModelDiff:   true,
